@@ -130,6 +130,7 @@ def run(prop: str, tier: str) -> int:
         nontrivial = set()
         replayed = 0
         prev_obj, prev_key, mutated, prev_sub = None, None, 0, None
+        failed_vecs = set()      # vectors whose single decode is already wrong (reported there; not used in histories)
         for v in vecs:
             fl, n, ops = v["fl"], v["n"] - 1, v["ops"]
             cls = clss[fl][n]
@@ -163,6 +164,7 @@ def run(prop: str, tier: str) -> int:
                 continue
             # C01: decode with a long-lived flavour object and with a fresh one
             for flav, tag in ((keep[fl], "kept"), (isa.FLAVOURS[fl](), "fresh")):
+                failed_vecs.add(v["id"])          # (removed again below if this decode is right)
                 try:
                     d = Deserializer(flav).deserialize_command(got)
                     mn, dops = isa.flatten(d)
@@ -178,6 +180,7 @@ def run(prop: str, tier: str) -> int:
                     V.add("operand-changed", {"fl": fl, "mn": v["mn"], "operand": pos},
                           f"{v['mn']} {ops} -> {got.hex()} -> {dops}", v)
                     break
+                failed_vecs.discard(v["id"])
         # streams (NV flavour): framing, app id, version
         nvcl = {c.mnemonic: c for c in clss["nv"]}
         nvshape = {e["mn"]: e["shape"] for e in table["nv"]}
@@ -211,6 +214,54 @@ def run(prop: str, tier: str) -> int:
                     what = "version" if got["ver"] != sub["ver"] else "app_id" if got["app"] != sub["app"] else "instructions"
                     V.add("stream-roundtrip", {"field": what}, f"sent {sub} got {got}", s)
                     break
+
+        # --- decoder histories: Decode is a function of the bytes alone ------
+        # The specification's Decode action has no decoder state, so the answer to a decode may not depend
+        # on what the same decoder (object, flavour object or module-level default path) decoded or rejected
+        # before.  One long-lived decoder per path is fed valid subroutines (expected answer: TLC's vectors)
+        # interleaved with inputs it has to reject at different positions.
+        histories = 0
+        if prop == "C01":
+            from netqasm.lang.parsing import binary as _bin
+            per_fl = {fl: [v for v in vecs if v["fl"] == fl and v["id"] not in failed_vecs] for fl in ("vanilla", "nv")}
+            step = 1 if tier == "thorough" else 7
+            for fl in ("vanilla", "nv"):
+                vs = per_fl[fl][::step]
+                other = per_fl["nv" if fl == "vanilla" else "vanilla"]
+                own_ops = {e["op"] for e in table[fl]}
+                foreign = [bytes(o["bytes"]) for o in other if o["bytes"][0] not in own_ops][:3] or [bytes([255, 0, 0, 0, 0, 0, 0])]
+                subs3 = [vs[i:i + 3] for i in range(0, len(vs) - 2, 3)]
+                paths = {"object": Deserializer(keep[fl]).deserialize_subroutine,
+                         "module+flavour": (lambda b, _f=keep[fl]: deserialize(b, flavour=_f))}
+                if fl == "vanilla":
+                    paths["module-default"] = lambda b: deserialize(b)
+                for pname, dec in paths.items():
+                    for k, grp in enumerate(subs3):
+                        hdr = bytes([0, 0, k % 200, 0])
+                        good = hdr + b"".join(bytes(v["bytes"]) for v in grp)
+                        want = [{"mn": v["mn"], "ops": v["ops"]} for v in grp]
+                        bads = [good[:4 + 7 * (k % 3)] + foreign[k % len(foreign)] + good[4 + 7 * (k % 3 + 1):],   # rejected at command 0..2
+                                good[:-(1 + k % 6)],                                                              # truncated
+                                good[:4 + 7 * (k % 3)] + bytes([254, 1, 2, 3, 4, 5, 6])][k % 3: k % 3 + 1]
+                        for b_in, expect in ([(good, want)] + [(x, None) for x in bads] + [(good, want)]):
+                            try:
+                                d = dec(b_in)
+                            except Exception as ex:
+                                if expect is not None:
+                                    V.add("decode-depends-on-history", {"fl": fl, "path": pname, "what": "raises"},
+                                          f"{pname}: valid subroutine {want} rejected after an earlier decode: {type(ex).__name__}: {ex}",
+                                          {"fl": fl, "path": pname, "good": list(good), "bads": [list(x) for x in bads]})
+                                    break
+                                continue
+                            if expect is None:
+                                continue
+                            got = [dict(zip(("mn", "ops"), isa.flatten(x))) for x in d.instructions]
+                            if got != expect or d.app_id != k % 200:
+                                V.add("decode-depends-on-history", {"fl": fl, "path": pname, "what": "differs"},
+                                      f"{pname}: sent {want} (app {k % 200}) got {got} (app {d.app_id}) after a rejected input",
+                                      {"fl": fl, "path": pname, "good": list(good), "bads": [list(x) for x in bads]})
+                                break
+                        histories += 1
 
         # --- code -> spec: random real subroutines validated by TLC ---------
         nrand = 400 if tier == "quick" else 6000
@@ -268,7 +319,7 @@ def run(prop: str, tier: str) -> int:
             "rule": "vector = (flavour, class, operand valuation) enumerated by TLC field-wise, stream = subroutine of <=3 instructions x app id x version, "
                     "random = real subroutine of <=40 instructions; non-trivial = at least one operand (vectors) or >=2 instructions (streams/random); distinct by value",
             "samples": [vecs[0], vecs[len(vecs) // 2], streams[len(streams) // 3], rows[min(3, len(rows) - 1)]],
-            "mutate_then_reencode_steps": mutated,
+            "mutate_then_reencode_steps": mutated, "decoder_histories": histories,
             "vectors": len(vecs), "streams": len(streams), "random_subroutines": len(rows),
             "tlc_action_coverage": {**r.coverage, **{"Trace" + k: v for k, v in r2.coverage.items()}},
             "exhaustive": False,
